@@ -1,10 +1,3 @@
 #!/bin/bash
-# battery_snapshot.sh [ids...] : for `vp run --with-repo -- tools/battery_snapshot.sh`: the seed battery on the snapshots of /verif
-# (the working directory) and /repo ($VP_RUN_REPO), leaving /repo itself alone.
-set -u
-V=$(pwd); R=${VP_RUN_REPO:?needs vp run --with-repo}
-sed -i "s#/repo/#$R/#g" replay/Cargo.toml replay_rt/Cargo.toml kani/select_all/src/lib.rs
-sed -i "s#/verif/build/#$V/build/#g" replay/.cargo/config.toml replay_rt/.cargo/config.toml kani/select_all/.cargo/config.toml 2>/dev/null
-grep -rl '"/repo' replay/src replay_rt/src 2>/dev/null | xargs -r sed -i "s#\"/repo/#\"$R/#g"
-[ -f $R/Cargo.lock ] || cp /repo/Cargo.lock $R/
-REPO=$R VERIF=$V tools/seedbattery.sh "$@"
+# battery_snapshot.sh [ids...] : `vp run --with-repo -- tools/battery_snapshot.sh`: the seed battery on snapshots (see snapshot_env.sh)
+exec tools/snapshot_env.sh tools/seedbattery.sh "$@"
